@@ -130,7 +130,8 @@ def many_attr_worker(arg):
     attrs = [pydsdl.Field(u8, "f%d" % i) for i in range(nv)]
     attrs += [pydsdl.Constant(u8, "C%d" % i, pydsdl._expression.Rational(1)) for i in range(nc)]
     cls = pydsdl.UnionType if union else pydsdl.StructureType
-    ty = cls(name="ns.U", version=pydsdl.Version(1, 0), attributes=attrs, deprecated=False, fixed_port_id=None,
+    form = attrs if (nv + nc) % 3 == 0 else tuple(attrs) if (nv + nc) % 3 == 1 else iter(attrs)     # the parameter is an Iterable
+    ty = cls(name="ns.U", version=pydsdl.Version(1, 0), attributes=form, deprecated=False, fixed_port_id=None,
              source_file_path=Path("/nonexistent/ns/U.1.0.dsdl"), has_parent_service=False)
     diff = []
     tag = 8 if nv <= 256 else 16
